@@ -144,8 +144,19 @@ pub fn gen_knobs(rng: &mut Rng, has_panic: bool, managed: bool) -> Knobs {
 }
 
 pub fn gen_managed(rng: &mut Rng, cfg: &GenCfg) -> MScenario {
+    // reuse-heavy mode: several objects idle at once, few faults, many returns (so that reuse
+    // order, metrics and recycling paths are exercised instead of creation only)
+    let reuse_mode = if matches!(cfg.profile, "C04" | "C08" | "C09" | "C13") {
+        rng.below(100) < 50
+    } else {
+        rng.below(100) < 15
+    };
     // pool
-    let max_size = *rng.pick(&[0usize, 1, 1, 1, 2, 2, 2, 3, 3, 4]);
+    let max_size = if reuse_mode {
+        *rng.pick(&[2usize, 2, 3, 3, 4])
+    } else {
+        *rng.pick(&[0usize, 1, 1, 1, 2, 2, 2, 3, 3, 4])
+    };
     let max_size = if cfg.max_size_hi > 4 && rng.below(10) == 0 {
         rng.range(5, cfg.max_size_hi)
     } else {
@@ -187,6 +198,8 @@ pub fn gen_managed(rng: &mut Rng, cfg: &GenCfg) -> MScenario {
     // outcomes
     let fault_level = if !cfg.faults {
         0
+    } else if reuse_mode {
+        *rng.pick(&[0u32, 0, 40, 100])
     } else {
         *rng.pick(&[0u32, 0, 0, 60, 150, 350])
     };
@@ -212,12 +225,12 @@ pub fn gen_managed(rng: &mut Rng, cfg: &GenCfg) -> MScenario {
     let heavy_block = rng.below(100) < 30;
     let mut actors = Vec::new();
     for _ in 0..n_actors {
-        let n_ops = rng.range(1, cfg.max_ops);
+        let n_ops = if reuse_mode { rng.range(cfg.max_ops / 2, cfg.max_ops + 2) } else { rng.range(1, cfg.max_ops) };
         let mut ops = Vec::new();
         for k in 0..n_ops {
             let mut weights = vec![
                 40u32,                                   // get
-                if heavy_block { 12 } else { 25 },       // return
+                if reuse_mode { 45 } else if heavy_block { 12 } else { 25 }, // return
                 if cfg.take { 6 } else { 0 },            // take
                 if cfg.retain { 5 } else { 0 },          // retain
                 4,                                       // status
